@@ -340,3 +340,46 @@ pub fn is_rfc8701_grease(t: u16) -> bool {
 pub const KNOWN_EXT_TYPES: [u16; 26] = [
     0, 1, 5, 10, 11, 13, 15, 16, 18, 21, 22, 23, 28, 35, 40, 41, 42, 43, 44, 45, 48, 49, 51, 13172, 0xff01, 0xffce,
 ];
+
+/// Further IANA assignments the crate does not name today: (registry type, value, IANA name).
+/// Used to judge constants that are added later: the printed name must belong to that value.
+pub const EXTRA_ASSIGNMENTS: &[(&str, u64, &str)] = &[
+    ("NamedGroup", 34, "GC256A"),
+    ("NamedGroup", 35, "GC256B"),
+    ("NamedGroup", 36, "GC256C"),
+    ("NamedGroup", 37, "GC256D"),
+    ("NamedGroup", 38, "GC512A"),
+    ("NamedGroup", 39, "GC512B"),
+    ("NamedGroup", 40, "GC512C"),
+    ("NamedGroup", 0x0200, "MLKEM512"),
+    ("NamedGroup", 0x0201, "MLKEM768"),
+    ("NamedGroup", 0x0202, "MLKEM1024"),
+    ("NamedGroup", 0x11EB, "SecP256r1MLKEM768"),
+    ("NamedGroup", 0x11EC, "X25519MLKEM768"),
+    ("NamedGroup", 0x11ED, "SecP384r1MLKEM1024"),
+    ("NamedGroup", 0x6399, "X25519Kyber768Draft00"),
+    ("NamedGroup", 0x639A, "SecP256r1Kyber768Draft00"),
+    ("TlsExtensionType", 27, "compress_certificate"),
+    ("TlsExtensionType", 34, "delegated_credential"),
+    ("TlsExtensionType", 54, "connection_id"),
+    ("TlsExtensionType", 57, "quic_transport_parameters"),
+    ("TlsExtensionType", 58, "ticket_request"),
+    ("TlsExtensionType", 59, "dnssec_chain"),
+    ("TlsExtensionType", 0xfd00, "ech_outer_extensions"),
+    ("TlsExtensionType", 0xfe0d, "encrypted_client_hello"),
+    ("SignatureScheme", 0x0420, "rsa_pkcs1_sha256_legacy"),
+    ("SignatureScheme", 0x0520, "rsa_pkcs1_sha384_legacy"),
+    ("SignatureScheme", 0x0620, "rsa_pkcs1_sha512_legacy"),
+    ("TlsAlertDescription", 121, "ech_required"),
+    ("TlsHandshakeType", 25, "compressed_certificate"),
+    ("TlsHandshakeType", 254, "message_hash"),
+    ("TlsRecordType", 25, "tls12_cid"),
+    ("TlsRecordType", 26, "ACK"),
+    ("TlsCompressionID", 64, "LZS"),
+    ("ECCurveType", 2, "explicit_char2"),
+];
+
+/// compare names ignoring case, underscores and other punctuation
+pub fn norm_name(s: &str) -> String {
+    s.chars().filter(|c| c.is_ascii_alphanumeric()).map(|c| c.to_ascii_lowercase()).collect()
+}
